@@ -778,3 +778,103 @@ Section Reach.
       intros Hlg k Hr Hw. eapply Hc; eauto.
   Qed.
 End Reach.
+
+(* ---------------------------------------------------------------------------------------- *)
+(* the specification's read (Spec.spec_latest) under appends                                 *)
+Lemma spec_latest_app A B k ts best :
+  spec_latest (A ++ B) k ts best = spec_latest B k ts (spec_latest A k ts best).
+Proof. revert best. induction A as [|a A IH]; intros best; cbn [app spec_latest]; auto. Qed.
+
+Lemma spec_latest_skip B k ts best :
+  (forall w, In w B -> e_key w = k -> ts < e_ver w) -> spec_latest B k ts best = best.
+Proof.
+  revert best. induction B as [|w B IH]; intros best H; cbn [spec_latest]; auto.
+  rewrite IH by (intros; apply H; auto; now right).
+  destruct (bytes_eqb (e_key w) k) eqn:E; cbn [andb]; auto.
+  apply bytes_eqb_eq in E. specialize (H w (or_introl eq_refl) E).
+  assert (F: (e_ver w <=? ts) = false) by (apply N.leb_gt; lia). now rewrite F.
+Qed.
+
+Lemma spec_latest_ts A k ts ts' best :
+  (forall w, In w A -> e_key w = k -> e_ver w <= ts /\ e_ver w <= ts') ->
+  spec_latest A k ts best = spec_latest A k ts' best.
+Proof.
+  revert best. induction A as [|w A IH]; intros best H; cbn [spec_latest]; auto.
+  destruct (bytes_eqb (e_key w) k) eqn:E; cbn [andb].
+  - apply bytes_eqb_eq in E. destruct (H w (or_introl eq_refl) E) as [H1 H2].
+    assert (F1: (e_ver w <=? ts) = true) by (apply N.leb_le; lia).
+    assert (F2: (e_ver w <=? ts') = true) by (apply N.leb_le; lia).
+    rewrite F1, F2. apply IH. intros; apply H; auto; now right.
+  - apply IH. intros; apply H; auto; now right.
+Qed.
+
+(* ---------------------------------------------------------------------------------------- *)
+(* serializability on the specification's history                                            *)
+Section Serial.
+  Variables (fx : bool).
+
+  (* hypotheses on a log (theorems in normal mode, caller contract in managed mode) *)
+  Definition cts_mono (L : list crec) : Prop := forall a b, before L a b -> cr_cts a <= cr_cts b.
+  Definition reads_below (L : list crec) : Prop := Forall (fun c => cr_rts c < cr_cts c) L.
+
+  (* no committed write to a key that a committed transaction read has a version strictly between
+     its read and its commit timestamp; a write AT its commit timestamp by another transaction
+     (managed mode only) comes later in the log *)
+  Lemma ser_no_write_between L :
+    ser fx L -> cts_mono L -> Forall rec_ok L -> Forall rec_api L ->
+    forall c c' k e, In c L -> In c' L -> cr_applied c' = true ->
+      In k (cr_rd c) -> In e (cr_wr c') -> e_key e = k ->
+      cr_rts c < e_ver e -> e_ver e <= cr_cts c -> c' = c \/ (e_ver e = cr_cts c /\ before L c c').
+  Proof.
+    intros S Mono Hok Hapi c c' k e Hc Hc' Hap Hr He Hk Hlo Hhi.
+    rewrite Forall_forall in Hok, Hapi. destruct (Hapi _ Hc') as [Hv _]. destruct (Hok _ Hc') as [Hkeys _].
+    rewrite (Hv _ He) in *. specialize (Hkeys _ He). rewrite Hk in Hkeys.
+    apply in_split in Hc. destruct Hc as (L1 & L2 & ->).
+    apply in_app_iff in Hc'. destruct Hc' as [Hc'|[<-|Hc']]; auto.
+    - exfalso. pose proof (before_in_split L1 c L2 c' Hc') as Hb.
+      assert (Hle: cr_cts c' <= cr_rts c).
+      { eapply ser_before; eauto. unfold logged. now rewrite Hap. }
+      lia.
+    - right. pose proof (before_split_after L1 c L2 c' Hc') as Hb. specialize (Mono _ _ Hb). split; auto. lia.
+  Qed.
+
+  (* the read a committed transaction made at its read timestamp is the read it makes in the serial
+     execution, where it runs alone after every transaction before it in the log and before every
+     transaction after it (any timestamp bound `top` at or above its read timestamp) *)
+  Theorem serial_read_eq L L1 c L2 k top :
+    ser fx L -> cts_mono L -> reads_below L -> Forall rec_ok L -> Forall rec_api L ->
+    L = L1 ++ c :: L2 -> In k (cr_rd c) -> cr_rts c <= top ->
+    spec_latest (log_writes L) k (cr_rts c) None = spec_latest (log_writes L1) k top None.
+  Proof.
+    intros S Mono Rb Hok Hapi -> Hr Htop. rewrite log_writes_app, spec_latest_app.
+    rewrite Forall_forall in Hok, Hapi. unfold reads_below in Rb. rewrite Forall_forall in Rb.
+    rewrite spec_latest_skip.
+    - apply spec_latest_ts. intros w Hw Hk. apply log_writes_in in Hw. destruct Hw as (c' & Hc' & Hap & Hw).
+      assert (Hin': In c' (L1 ++ c :: L2)) by (apply in_or_app; now left).
+      destruct (Hapi _ Hin') as [Hv _]. destruct (Hok _ Hin') as [Hkeys _].
+      rewrite (Hv _ Hw). specialize (Hkeys _ Hw). rewrite Hk in Hkeys.
+      assert (Hle: cr_cts c' <= cr_rts c).
+      { eapply ser_before; eauto; [now apply before_in_split|]. unfold logged. now rewrite Hap. }
+      lia.
+    - intros w Hw Hk. apply log_writes_in in Hw. destruct Hw as (c' & Hc' & Hap & Hw).
+      assert (Hin': In c' (L1 ++ c :: L2)) by (apply in_or_app; now right).
+      destruct (Hapi _ Hin') as [Hv _]. rewrite (Hv _ Hw).
+      assert (Hc: cr_rts c < cr_cts c) by (apply Rb; apply in_or_app; right; now left).
+      destruct Hc' as [<-|Hc']; auto.
+      pose proof (Mono _ _ (before_split_after L1 c L2 c' Hc')). lia.
+  Qed.
+
+  (* two committed transactions that both read k and both wrote k are not concurrent:
+     the later one started after the earlier one's commit timestamp *)
+  Lemma ser_no_lost_update L a b k :
+    ser fx L -> before L a b -> cr_applied a = true ->
+    In k (cr_rd b) -> In k (cr_keys a) -> cr_cts a <= cr_rts b.
+  Proof. intros S Hb Hap. apply (ser_before fx L S a b Hb). unfold logged. now rewrite Hap. Qed.
+
+  (* write skew: a reads k2 and writes k1, b reads k1 and writes k2, both commit, neither sees the
+     other.  Impossible: the second to commit read a key the first wrote *)
+  Lemma ser_no_write_skew L a b k1 :
+    ser fx L -> before L a b -> cr_applied a = true ->
+    In k1 (cr_keys a) -> In k1 (cr_rd b) -> ~ (cr_rts b < cr_cts a).
+  Proof. intros S Hb Hap Hw Hr Hlt. pose proof (ser_no_lost_update L a b k1 S Hb Hap Hr Hw). lia. Qed.
+End Serial.
